@@ -22,6 +22,7 @@ type filesCase struct {
 	info    caseInfo
 	hist    history
 	idx     int
+	cont    int // how an in-flight remove is continued: 0 re-receive, 1 re-remove
 }
 
 // filesCases executes the history on a live crash-VFS and returns one crash case per prefix of the
@@ -87,12 +88,17 @@ func filesCases(r *ev.Run, w *world, h history) []filesCase {
 		}
 		unsynced := st.unsyncedBytes()
 		for _, v := range vfsVariants {
-			idx := len(out)
-			out = append(out, filesCase{state: st.crash(v), variant: v, hist: h, idx: idx, info: caseInfo{
-				CaseID: fmt.Sprintf("files-%s-s%d;", h.ID, idx), Store: "files", Shape: h.Shape, History: hs,
-				Kind: opName + "-" + kind + "-" + v, Off: off,
-				Detail: fmt.Sprintf("%s; calls:%s; un-synced bytes at crash: %d (%s)", detail, trace, unsynced, v),
-			}})
+			for cont := 0; cont < 2; cont++ {
+				if cont == 1 && last.Recv {
+					continue
+				}
+				idx := len(out)
+				out = append(out, filesCase{state: st.crash(v), variant: v, hist: h, idx: idx, cont: cont, info: caseInfo{
+					CaseID: fmt.Sprintf("files-%s-s%d;", h.ID, idx), Store: "files", Shape: h.Shape, History: hs,
+					Kind: opName + "-" + kind + "-" + v, Off: off + []string{"", "/reremove"}[cont],
+					Detail: fmt.Sprintf("%s; calls:%s; un-synced bytes at crash: %d (%s)", detail, trace, unsynced, v),
+				}})
+			}
 		}
 	}
 	for k := 0; k <= len(tail); k++ {
@@ -127,7 +133,7 @@ func runFilesCase(r *ev.Run, w *world, fc filesCase) {
 		ck := o.checker(s, "files")
 		ck.Audit(o.rng, false)
 		o.done(ck)
-		o.continueHistory(ck, fc.idx)
+		o.continueHistory(ck, fc.cont)
 		ck.Audit(o.rng, true)
 		o.done(ck)
 		// a second restart (every op acknowledged, un-synced data dropped) must still agree with the journal
